@@ -85,6 +85,15 @@ def check(ctx: Ctx) -> None:
     r4(ctx)
     r5(ctx)
     r6(ctx)
+    # the conditional pointer write must not be retried: a retry that loses against its own first attempt turns an
+    # ambiguous outcome into a clean conflict (C08.R3)
+    from .c08 import r3 as c08_r3
+    n0 = len(ctx.obs)
+    c08_r3(ctx)
+    for o in ctx.obs[n0:]:
+        o.rule = "C04.R7"
+    ctx.rule_text["C04.R7"] = ctx.rule_text.pop("C08.R3")
+    ctx.floors["C04.R7"] = ctx.floors.pop("C08.R3")
 
 
 # ----------------------------------------------------------------------- R1
@@ -140,6 +149,16 @@ def r1(ctx: Ctx) -> None:
             ctx.ob("C04.R1", f, f"{op}: except {','.join(hcs)}", hn, not problems,
                    "non-conflict error at the commit point -> AmbiguousCommitError (or clean re-raise under "
                    "atomic_write_failures)" + ("; " + "; ".join(problems) if problems else ""))
+    for b in [b for b in g.nodes if b.kind == "branch" and b.ast is not None and "atomic_write_failures" in norm_text(b.ast)]:
+        t = edge_target(g, b, "true")
+        if t is None:
+            continue
+        rs = [g.nodes[x] for x in reachable_from(g, t) if g.nodes[x].kind == "raise"]
+        ok = bool(rs) and all(r.raised == "reraise" for r in rs) and norm_text(b.ast).endswith("atomic_write_failures")
+        ctx.ob("C04.R1", f, "on an atomic_write_failures backend a failed pointer write is a CLEAN failure", b, ok,
+               "temp + rename: an exception means the rename never happened, so the error is re-raised unchanged (rollback + cleanup "
+               "run); reclassifying it as ambiguous keeps the never-committed metadata file and data files on disk"
+               + ("" if ok else f"; raises reachable from the true edge: {[r.raised for r in rs]}"))
     # supports_cas true-branch must only reach the CAS write, never the plain write
     for b in [b for b in g.nodes if b.kind == "branch" and b.ast is not None and "supports_cas" in norm_text(b.ast)]:
         t = edge_target(g, b, "true")
@@ -223,9 +242,12 @@ def r3(ctx: Ctx) -> None:
         t = hn.stmt
         order = [handler_classes(x) for x in t.handlers]  # type: ignore[union-attr]
         idx = next(i for i, x in enumerate(t.handlers) if x is h)  # type: ignore[union-attr]
-        shadow = [cs for cs in order[:idx] if any(c in ("Exception", "BaseException") for c in cs)]
-        ctx.ob("C04.R3", f, "ambiguous handler not shadowed by an earlier broad handler", hn, not shadow,
-               "handler order: AmbiguousCommitError is matched before `except Exception`")
+        shadow = [cs for cs in order[:idx] if any(c in ("Exception", "BaseException") or
+                                                 ctx.prog.exc_is_subclass("AmbiguousCommitError", c) for c in cs)]
+        ctx.ob("C04.R3", f, "ambiguous handler not shadowed by an earlier handler (class hierarchy included)", hn, not shadow,
+               "handler order: AmbiguousCommitError is matched before `except Exception`, and no earlier handler names one of its "
+               f"base classes (earlier handlers: {order[:idx]}; AmbiguousCommitError bases: "
+               f"{ctx.prog.exc_parent('AmbiguousCommitError')})")
     rb = ctx.fn("transaction.Transaction._rollback")
     rg = ctx.cfg(rb)
     dels = ctx.calls(rb, storage="delete_file")
@@ -419,8 +441,17 @@ def r6(ctx: Ctx) -> None:
                     for d in dels:
                         bad.append(f"{f.file}:{d.lineno} `{d.text[:60]}` in `except {','.join(hcs)}` runs on an ambiguous failure")
                     hn = next((x for x in g.nodes if x.kind == "handler" and x.ast is h), None)
-                    if hn is not None and not handler_exits(ctx, f, hn)["raise"]:
-                        live = False
+                    if hn is not None:
+                        ex = handler_exits(ctx, f, hn)
+                        if not ex["raise"]:
+                            live = False
+                        if f.qname != "datashard.transaction.Transaction.commit" and not _is_write:
+                            conv = [r for r in ex["raise"] if r.raised not in ("reraise", "AmbiguousCommitError")]
+                            for r in conv:
+                                bad.append(f"{f.file}:{r.lineno} `except {','.join(hcs)}` converts the ambiguous error into {r.raised}: "
+                                           f"Transaction.commit then treats it as a clean failure and runs the deleting rollback")
+                            if ex["fallthrough"] or ex["return"]:
+                                bad.append(f"{f.file}:{hn.lineno} `except {','.join(hcs)}` swallows the ambiguous error")
                     break  # first matching handler wins
             if fr.part in ("body", "handler", "else") and t.finalbody:  # type: ignore[attr-defined]
                 fin_nodes = [d for d in g.calls() if any(x.kind == "try" and x.node is t and x.part == "final" for x in d.frames)
